@@ -3,13 +3,13 @@
 HOOK_COMMITS = ["c4c2ecd", "2f67f21", "e5d0013", "7bf7f92", "553dd8c"]
 
 ENGINES = [
-    {"name": "tlc", "path": "/verif/lib/vlib.py", "serves_properties": ["C01", "C02", "C03", "C05", "C06", "C11", "C12", "C17", "C18"],
+    {"name": "tlc", "path": "/verif/lib/vlib.py", "serves_properties": ["C01", "C02", "C03", "C04", "C05", "C06", "C11", "C12", "C14", "C17", "C18"],
      "kind_free_text": "TLC runner (exhaustive, simulation), TLA+ value parser, evidence writer"},
-    {"name": "psrun", "path": "/verif/lib/psprops.py", "serves_properties": ["C01", "C02", "C03", "C06", "C11"],
+    {"name": "psrun", "path": "/verif/lib/psprops.py", "serves_properties": ["C01", "C02", "C03", "C04", "C06", "C11", "C14"],
      "kind_free_text": "abstract programs (catalogue + seeded generator) -> MroSem table by TLC -> real pipestances under forced schedules -> PsTrace monitors by TLC"},
     {"name": "procdrv", "path": "/verif/lib/procdrv.py", "serves_properties": ["C05"],
      "kind_free_text": "real mrp/mrjob (tag verif) + table-driven vstage; SIGKILL/SIGTERM/SIGINT at the k-th effect; restart"},
-    {"name": "vh", "path": "/verif/harness", "serves_properties": ["C01", "C02", "C03", "C05", "C06", "C11", "C12", "C17", "C18"],
+    {"name": "vh", "path": "/verif/harness", "serves_properties": ["C01", "C02", "C03", "C04", "C05", "C06", "C11", "C12", "C14", "C17", "C18"],
      "kind_free_text": "Go conformance harness built with -tags verif against /repo's working tree"},
 ]
 
@@ -52,6 +52,14 @@ CHECKS = [
      "technique": "expected job set from TLA+ semantics; execution counting on real runs; TLC trace monitors",
      "text": "ExpectedJobs = MroSem.Invocations(p) (forks per element/key, chunks as returned by split, nothing for disabled or empty/null mapped calls); PsTrace (TLC) flags any job executed twice, any job not in the table, any expected job never executed and any run that stalls.",
      "ref": "DESIGN.md 5 C03", "note": _RT_NOTE},
+    {"id": "C04", "engine": "tlc+psrun+vh",
+     "technique": "TLA+ model of the VDR keep-alive protocol (Vdr.tla) checked exhaustively with the cleanup goroutines racing the run loop; file facts from the TLA+ semantics (MroSem.FileFacts); real pipestances writing files under every VDR mode; TLC trace monitors on removal events",
+     "text": "Vdr.tla (fileArgs, filePostNodes, fileParamMap; one action per storage-lock critical section, asynchronous cache/kill halves of the doComplete goroutine, inline calls of the run loop, final sweep) is model-checked for NothingNeededRemoved, FinalClean, ReportExact over 78 small programs x 3 modes. For the file-passing catalogue TLC computes from MroSem which job writes each file, which jobs are handed it and whether a top-level output or retain names it; the real runtime runs the programs with table-driven stage code that writes and opens those files, under rolling / post / strict, slow-instance and random schedules, jittered cleanup goroutines and pipestances below a symbolic link; PsTrace (TLC) judges every VdrRemove (hook before os.RemoveAll), every consumer start and the final tree.",
+     "ref": "DESIGN.md 5 C04", "note": _RT_NOTE + "; file shapes are a hand catalogue (18 programs); pass-through of upstream paths is outside the contract"},
+    {"id": "C14", "engine": "tlc+psrun+vh",
+     "technique": "same runs as C04; TLC monitors on the final tree and the kill reports, accounting compared with measurements taken at the removal hook; Vdr.tla invariants FinalClean / ReportExact model-checked",
+     "text": "At completion (final VDR sweep and post-processing done as in cmd/mrp) PsTrace (TLC) requires: no per-job temporary directory with content, no file of a chunk of a splitting stage, no file (referenced, unreferenced, name-extending sibling) of a volatile stage - in strict mode of any stage - unless named by a top-level output or a retain; every path in the pipestance kill report is gone; its count and size equal the directory entries and bytes measured under each path when mrp removed it; no removal outside the pipestance.",
+     "ref": "DESIGN.md 5 C14", "note": _RT_NOTE + "; interruption between partial and final cleanup is not yet driven"},
     {"id": "C12", "engine": "tlc+vh",
      "technique": "TLA+ model of ResourceSemaphore checked by TLC; TLC behaviours replayed against the real object",
      "text": "ResSem.tla (one action per critical section of resource_semaphore.go) is model-checked exhaustively for WithinLimits, GrantFits, Fifo, NoLostWakeup and progress; seeded TLC behaviours are replayed against the real core.ResourceSemaphore and the same guards are judged on the real object's observable state after every step.",
